@@ -91,6 +91,8 @@ def run(out: common.Outcome, explore: int = 0) -> None:
     from pathlib import Path as _Path
     lpool = [_json.loads(l) for l in (_Path(__file__).resolve().parent / "pool" / "L.jsonl").read_text().splitlines() if l.strip()]
     recs = recs + L.select(lpool, out.seed + 1, out.tier, 100)
+    l2pool = [_json.loads(l) for l in (_Path(__file__).resolve().parent / "pool" / "L2.jsonl").read_text().splitlines() if l.strip()]
+    recs = recs + L.select(l2pool, out.seed + 4, out.tier, 60)      # "bunched" loop exits: the continuing branch begins with a fork
     recs = recs + [r for r in L.load_corpus_pool() if has_loop(r["d"])]      # the loop cases of the corpus
     variants = (0, 4) if quick else (0, 1, 4, 5)
     items = []
